@@ -337,13 +337,45 @@ def tab10(units, R):
         ids = {(nid, pol) for (nid, pol, _c) in edges}
         return guarded_by(cfg, ret_id, lambda n, l: n.kind == 'branch' and l is not None and (n.id, l[0]) in ids) if ids else False
 
+    def table_cell(e):
+        """(table decl, index variable decl, field name or None) for T[i] / T[i].field on a constant local table"""
+        e = strip_casts(e)
+        field = None
+        if e.get('k') == 'mem' and not e.get('arrow'):
+            field = e['f']
+            e = strip_casts(e['b'])
+        if e.get('k') == 'idx' and strip_casts(e['b']).get('d') in tables and is_ref(e['i']):
+            return (strip_casts(e['b'])['d'], strip_casts(e['i'])['d'], field)
+        return None
+
+    def column(tab_d, field):
+        """the cells of one column of a table (the table itself when it is an array of scalars)"""
+        rows = tables[tab_d]
+        if field is None:
+            return rows
+        out = []
+        for r in rows:
+            if r.get('k') != 'initlist':
+                return None
+            # which position is `field`: the record of the element type
+            rec = None
+            for rname, rr in u.records.items():
+                if any(f['n'] == field for f in rr['fields']) and len(rr['fields']) == len(r['inits']):
+                    rec = rr
+            if rec is None:
+                return None
+            pos = [i for i, f in enumerate(rec['fields']) if f['n'] == field][0]
+            out.append(strip_casts(r['inits'][pos]))
+        return out
+
     def literal_arg(call):
         for a0 in call['args']:
             a0 = strip_casts(a0)
             if a0.get('k') == 'str':
                 return ('lit', bytes(a0['bytes']).decode('latin1'))
-            if a0.get('k') == 'idx' and strip_casts(a0['b']).get('d') in tables and is_ref(a0['i']):
-                return ('tab', strip_casts(a0['b'])['d'], strip_casts(a0['i'])['d'])
+            tc = table_cell(a0)
+            if tc is not None:
+                return ('tab', tc[0], tc[1], tc[2])
         return None
     all_edges = equal_edges(lambda c: literal_arg(c) is not None)
     for r in cfg.returns():
@@ -369,9 +401,9 @@ def tab10(units, R):
                     la = literal_arg(call)
                     if la[0] == 'lit' and r.id in cfg.reachable(nid):
                         mapping.setdefault(e['n'], []).append(la[1])
-        elif e.get('k') == 'idx' and strip_casts(e['b']).get('d') in tables and is_ref(e['i']):
-            # return opcodes[i] guarded by strcmp(x, names[i]) == 0 with the same i
-            tab_d, idx_d = strip_casts(e['b'])['d'], strip_casts(e['i'])['d']
+        elif table_cell(e) is not None:
+            # return opcodes[i] (or rows[i].opcode) guarded by strcmp(x, names[i]) == 0 with the same i
+            tab_d, idx_d, ret_field = table_cell(e)
             eds = [ed for ed in all_edges if literal_arg(ed[2])[0] == 'tab' and literal_arg(ed[2])[2] == idx_d]
             if not eds or not guarded_by_equal(r.id, eds):
                 raise AnalysisBroken('TAB10: %s: table lookup is not guarded by a comparison with the same index' % fn.where(r.expr))
@@ -393,10 +425,13 @@ def tab10(units, R):
                             # changes, i.e. those from which the return is reachable without passing the comparison again
                             if r.id in cfg.reachable(m, stop={nid}):
                                 raise AnalysisBroken('TAB10: %s: index changes between comparison and lookup' % fn.where(r.expr))
-            name_tabs = {literal_arg(ed[2])[1] for ed in eds}
+            name_tabs = {(literal_arg(ed[2])[1], literal_arg(ed[2])[3]) for ed in eds}
             if len(name_tabs) != 1:
                 raise AnalysisBroken('TAB10: %s: several name tables' % fn.where(r.expr))
-            names_t, ops_t = tables[name_tabs.pop()], tables[tab_d]
+            nt = name_tabs.pop()
+            names_t, ops_t = column(nt[0], nt[1]), column(tab_d, ret_field)
+            if names_t is None or ops_t is None:
+                raise AnalysisBroken('TAB10: %s: table columns cannot be read' % fn.where(r.expr))
             if len(names_t) != len(ops_t):
                 R.ob('TAB10', fn, r.expr, 'name table and opcode table have the same length', False,
                      '%d names, %d opcodes' % (len(names_t), len(ops_t)), key='decode-tables')
